@@ -63,6 +63,25 @@ impl<'c, 'r, C: ZCol> Visitor<C> for V<'c, 'r> {
                     });
                 }
                 ctx.count("draw_calls_on_skipping_native_target", 1);
+                // ... and so must targets that consume what they receive with for_each (Iterator::fold)
+                let mut fa = IterTarget::<C>::new(*bx);
+                let mut fb = NativeTarget::<C>::new(*bx);
+                fa.log.budget = budget;
+                fb.log.budget = budget;
+                fa.log.internal_iteration = true;
+                fb.log.internal_iteration = true;
+                let _ = d.draw_on(&mut fa);
+                let _ = d.draw_on(&mut fb);
+                for (which, t) in [("draw_iter-only", &fa.log), ("native", &fb.log)] {
+                    if !t.over_budget && !a.log.map.same(&t.map) {
+                        let class = diff_class(&a.log.map, &t.map);
+                        ctx.violation(format!("{}|target-consuming-with-for_each|{}", kind, class), case, || {
+                            format!("pixel maps differ at {:?} (x, y, target pulling with next(), {} target consuming with for_each)", a.log.map.first_diff(&t.map), which)
+                        });
+                        break;
+                    }
+                }
+                ctx.count("draw_calls_on_targets_consuming_with_for_each", 2);
             }
             ctx.count("draw_calls", 2);
             for k in 0..4 {
